@@ -5,7 +5,7 @@
    flags share a bit again. *)
 From Coq Require Import List NArith Bool.
 From RB Require Import Base.Result Gen.Flags Model.Buffer Model.Flags Model.Font Model.Skip Model.Gsub Proofs.FlagsP Proofs.GsubConcatP.
-From RB Require Proofs.BufferMaskP Proofs.BufferFlagFrameP.
+From RB Require Model.BufferOps Proofs.BufferMaskP Proofs.BufferFlagFrameP.
 Import ListNotations.
 Local Open Scope N_scope.
 
@@ -142,6 +142,19 @@ Theorem C04_flag_calls_keep_feature_bits : forall b m s e interior from_out b', 
   map BufferMaskP.fbits (pre b' ++ rest b') = map BufferMaskP.fbits (pre b ++ rest b).
 Proof. exact BufferFlagFrameP.set_glyph_flags_fbits. Qed.
 Print Assumptions C04_flag_calls_keep_feature_bits.
+
+(* ... and so does every finite sequence of pure bookkeeping operations - cluster merges and the four flag calls with any
+   arguments, in any mode, at any cluster level (operation alphabet and `run` of Model/BufferOps.v, the model the
+   operation-sequence correspondence replays) *)
+Theorem C04_bookkeeping_sequences_keep_glyphs : forall ops b b', forallb BufferFlagFrameP.bookkeeping ops = true ->
+  BufferOps.run b ops = Ok (Some b') -> map gid (pre b' ++ rest b') = map gid (pre b ++ rest b).
+Proof. exact BufferFlagFrameP.run_bookkeeping_gids. Qed.
+Print Assumptions C04_bookkeeping_sequences_keep_glyphs.
+
+Theorem C04_bookkeeping_sequences_keep_feature_bits : forall ops b b', forallb BufferFlagFrameP.bookkeeping ops = true ->
+  BufferOps.run b ops = Ok (Some b') -> map BufferMaskP.fbits (pre b' ++ rest b') = map BufferMaskP.fbits (pre b ++ rest b).
+Proof. exact BufferFlagFrameP.run_bookkeeping_fbits. Qed.
+Print Assumptions C04_bookkeeping_sequences_keep_feature_bits.
 
 Example C04_example :
   map (fun i => (cluster i, mask i))
